@@ -3,7 +3,6 @@ package lib
 import (
 	"bytes"
 	"fmt"
-	"io"
 	"os"
 	"sort"
 	"strings"
@@ -126,11 +125,17 @@ func InspectCar(inStream *os.File, verifyHashes bool) (*Report, error) {
 	}
 
 	if stats.Version == 1 && verifyHashes { // check that we've read all the data
-		got, err := inStream.Read(make([]byte, 1)) // force EOF
-		if err != nil && err != io.EOF {
+		// The inspection above stops at a zero-length section. Reading from inStream cannot tell
+		// whether anything follows: the reader works through ReadAt, so the stream is still
+		// positioned where the caller left it (at the start). A second pass without the
+		// zero-length-section leniency walks the sections up to the real end of the file and
+		// refuses whatever the first pass did not look at.
+		strict, err := carv2.NewReader(inStream)
+		if err != nil {
 			return nil, err
-		} else if got > 0 {
-			return nil, fmt.Errorf("unexpected data after EOF: %d", got)
+		}
+		if _, err := strict.Inspect(false); err != nil {
+			return nil, fmt.Errorf("unexpected data after EOF: %w", err)
 		}
 	}
 
